@@ -189,8 +189,8 @@ Definition stage_in (st : gstate) (g : nat) (f : flow) : option (gstate * nat * 
         match copy_at st1 d s with
         | None => None
         | Some sc =>
-            let '(dt2, r) := start (coh (get_dat st1 d)) g (cmode m) in
-            let st2 := upd_coh st1 d (fun _ => dt2) in
+            let r := snd (start (coh (get_dat st1 d)) g (cmode m)) in
+            let st2 := upd_coh st1 d (fun dt => fst (start dt g (cmode m))) in
             if r =? -1 then
               let st3 := match sel with Some t => release_reader st2 t d true | None => st2 end in
               let st4 := upd_copy st3 d g (fun c => set_xfer c 2) in
